@@ -36,6 +36,15 @@ class World:
         self.res = res
         self.rng = rng
         self.p = api.Project()
+        self.holder = None
+        if rng.random() < 0.3:
+            # "any project" includes the project embedded in a MetaModule, with user-defined controllers mapped onto
+            # positions that are occupied, empty or not there yet
+            self.holder = api.m.MetaModule(project=self.p)
+            self.holder.user_defined_controllers = 8
+            for i in range(8):
+                self.holder.mappings.values[i] = self.holder.Mapping((i + 1, rng.randrange(3)))
+            res.count("worlds_inside_a_metamodule")
         self.slots = ["Output"]          # model: names or None
         self.patterns = []               # model: ("P", name) | ("C", source) | None
         self.counter = 0
@@ -292,6 +301,11 @@ class World:
         self.res.count("note_mod_checks")
         if self.rng.random() < 0.5:
             k = self.rng.choice([0, 1, len(self.slots), len(self.slots) + 1, len(self.slots) + 5, self.rng.randint(0, len(self.slots))])
+            if self.rng.random() < 0.6:
+                # whatever the cell's command column holds (a note, note-off, the project-wide commands ...), the module column
+                # names a position
+                note.note = self.api.NOTECMD(self.rng.choice([0, 1, 60, 120, 128, 129, 130, 131, 132, 133, 134]))
+                self.res.hist("note_mod_command_column", int(note.note))
             note.module = k
             try:
                 got = note.mod
